@@ -159,6 +159,19 @@ def main():
             else:
                 undecided.append(o)
 
+    # A clause that was discharged on the unchanged tree (committed baseline) and that the solver now leaves open is reported as a
+    # violation without failing input (the solver's reason is attached); clauses never discharged before stay `undecided`.
+    base_file = os.path.join(HERE, 'baseline', pid + '.json')
+    baseline = set(json.load(open(base_file))) if os.path.exists(base_file) else set()
+    regressed = [o for o in undecided if o.name in baseline]
+    undecided = [o for o in undecided if o.name not in baseline]
+    for o in regressed:
+        o.model = 'no model: the solver answers %r (reason: %s) for an obligation that is discharged on the unchanged tree' % (o.verdict, o.reason)
+    violations += regressed
+    if '--write-baseline' in sys.argv:
+        os.makedirs(os.path.join(HERE, 'baseline'), exist_ok=True)
+        json.dump(sorted(n for n, c in clauses.items() if c['unsat'] == c['instances']), open(base_file, 'w'), indent=0)
+
     # one report per failed clause (first failing instance)
     seen = set()
     vio_lines = []
@@ -169,7 +182,7 @@ def main():
         info = next((f for f in per_fn if o.name.startswith(f['function'] + '/')), {})
         rp = os.path.join(OUT, 'replays', '%s-%s.json' % (pid, slug(o.name)))
         rep = replay_registry.replay(pid, o, spec)
-        doc = {'property': pid, 'obligation': o.name, 'function': info, 'line': o.meta.get('line'), 'verdict': 'sat', 'solver': o.solver,
+        doc = {'property': pid, 'obligation': o.name, 'function': info, 'line': o.meta.get('line'), 'verdict': o.verdict, 'solver': o.solver, 'solver_reason': o.reason,
                'path_signature': o.meta.get('trace'), 'origin': o.meta.get('origin'), 'model': o.model,
                'replay': rep, 'confirmed': bool(rep.get('confirmed')),
                'instances_failing': len([x for x in violations if x.name == o.name])}
